@@ -110,7 +110,7 @@ pub async fn publish_handler(w: Rc<World>, conn: usize, p: v3::Publish, route: &
     }
 }
 
-pub async fn proto_handler(w: Rc<World>, conn: usize, msg: v3::ProtocolMessage) -> Result<v3::ProtocolMessageAck, AppErr> {
+pub async fn proto_handler(w: Rc<World>, conn: usize, msg: v3::ProtocolMessage, sink: Option<v3::MqttSink>) -> Result<v3::ProtocolMessageAck, AppErr> {
     let mut msg = msg;
     let (brief, pid) = match &mut msg {
         v3::ProtocolMessage::PublishRelease(r) => (format!("PUBREL #{}", r.packet_id), Some(r.packet_id.get())),
@@ -125,8 +125,15 @@ pub async fn proto_handler(w: Rc<World>, conn: usize, msg: v3::ProtocolMessage) 
         v3::ProtocolMessage::Disconnect(_) => ("DISCONNECT".to_string(), None),
         v3::ProtocolMessage::Ping(_) => ("PINGREQ".to_string(), None),
     };
+    let sends = brief.contains("hs/");
     let (gid, imm) = w.gate_enter(conn, GateKind::Proto, GateDesc::Proto { brief, pid });
     let _guard = GateGuard { w: w.clone(), id: gid };
+    if let (Some(sink), v3::ProtocolMessage::Subscribe(_), true) = (&sink, &msg, sends) {
+        // the handler depends on the connection's outbound side: whatever ends the wait (acknowledgement,
+        // disconnect) lets it go on
+        let r = sink.publish(ByteString::from(format!("h/{gid}"))).send_at_least_once(Bytes::from_static(b"hs")).await;
+        w.ev(Ev::Note { what: format!("handler send of gate {gid}: {}", if r.is_ok() { "acked" } else { "failed" }) });
+    }
     let outcome = match imm {
         Some(o) => o,
         None => w.gate_wait(gid).await,
@@ -267,11 +274,12 @@ macro_rules! v3_factory {
         }
     });
 
-    let w3 = w.clone();
+    let (w3, p3) = (w.clone(), plan.clone());
     let proto = fn_factory_with_config(move |ses: v3::Session<St>| {
         let (w, conn) = (w3.clone(), ses.conn);
+        let sink = if p3.cfg.handler_sends { Some(ses.sink().clone()) } else { None };
         async move {
-            Ok::<_, AppErr>(fn_service(move |msg: v3::ProtocolMessage| proto_handler(w.clone(), conn, msg)))
+            Ok::<_, AppErr>(fn_service(move |msg: v3::ProtocolMessage| proto_handler(w.clone(), conn, msg, sink.clone())))
         }
     });
 
